@@ -643,6 +643,12 @@ func (r *runner) rootPairs(dir string, seed int64, rounds int) {
 		"bal": map[string]int{"x": 0}, "setupEqual": pair.SetupEqual()})
 	for round := 0; round < rounds; round++ {
 		k := 2 + rng.Intn(3) // distinct senders and receivers: the transfers commute
+		big := rng.Intn(3) == 0
+		if big {
+			// a long transaction list (several transfers per sender: a permutation breaks their nonce order, the roots still
+			// commit to what was executed): positions far from the head of the list are covered like the first ones
+			k = 65 + rng.Intn(70)
+		}
 		var txs []pb.Transaction
 		for i := 0; i < k; i++ {
 			from := r.a.Account(users[i%len(users)])
@@ -656,9 +662,29 @@ func (r *runner) rootPairs(dir string, seed int64, rounds int) {
 		}
 		switch mode {
 		case "perm":
-			rng.Shuffle(len(permuted), func(i, j int) { permuted[i], permuted[j] = permuted[j], permuted[i] })
+			if !big {
+				rng.Shuffle(len(permuted), func(i, j int) { permuted[i], permuted[j] = permuted[j], permuted[i] })
+			} else {
+				// another interleaving of the senders' queues: every sender's own transactions keep their order (the nonce a sender
+				// is left with is the one of its last transaction: transfers of ONE sender do not commute, those of different ones do)
+				queues := make([][]pb.Transaction, len(users))
+				for i, t := range txs {
+					queues[i%len(users)] = append(queues[i%len(users)], t)
+				}
+				permuted = permuted[:0]
+				for len(permuted) < k {
+					q := rng.Intn(len(users))
+					if len(queues[q]) > 0 {
+						permuted = append(permuted, queues[q][0])
+						queues[q] = queues[q][1:]
+					}
+				}
+			}
 		case "perturb":
 			i := rng.Intn(k)
+			if big && rng.Intn(4) > 0 {
+				i = k - 1 - rng.Intn(k-64)
+			}
 			from := r.a.Account(users[i%len(users)])
 			r.a.SetNonce(from.Addr, permuted[i].GetNonce())
 			permuted[i] = r.a.TransferTx(from, permuted[i].GetTo(), "77")
